@@ -1997,7 +1997,12 @@ namespace bloch::runtime {
                     v.charValue = '\0';
             } else {
                 v.type = Value::Type::Int;
-                v.intValue = std::stoi(lit->value);
+                try {
+                    v.intValue = std::stoi(lit->value);
+                } catch (const std::exception&) {
+                    throw BlochError(ErrorCategory::Runtime, lit->line, lit->column,
+                                     "integer literal '" + lit->value + "' does not fit in an int");
+                }
             }
             return v;
         } else if (auto paren = dynamic_cast<ParenthesizedExpression*>(e)) {
